@@ -80,6 +80,16 @@ class Sym:
                 e = dict(m1)
                 for a, k in m2:
                     e[a] = e.get(a, 0) + k
+                # sqrt(x)^2 = x for the uninterpreted square root of a single symbol
+                for a in [a for a, k in e.items() if a.startswith("sqrt(") and abs(k) >= 2]:
+                    fa = OPAQUE_ARGS.get(a)
+                    if fa and fa[0] == "sqrt" and len(fa[1].terms) == 1:
+                        (mono, coef), = fa[1].terms.items()
+                        if coef == 1 and len(mono) == 1 and mono[0][1] == 1:
+                            k = e[a]
+                            half = int(k / 2) if k > 0 else -int(-k / 2)
+                            e[a] = k - 2 * half
+                            e[mono[0][0]] = e.get(mono[0][0], 0) + half
                 m = tuple(sorted((a, k) for a, k in e.items() if k != 0))
                 t[m] = t.get(m, 0) + c1 * c2
         return Sym(t)
